@@ -329,10 +329,11 @@ def cache_tasks(tier, role):
             dict(nl=1, nr=2, rounds=2, max_len=[1, 1], cached='right'),
             dict(nl=2, nr=1, rounds=2, max_len=[1, 0], cached='right'),
             dict(nl=1, nr=1, rounds=2, max_len=[1, 1], cached='right', timeouts=1),
-            dict(nl=1, nr=1, rounds=2, max_len=[2, 1], cached='left')]
+            dict(nl=1, nr=1, rounds=2, max_len=[2, 1], cached='left'),
+            dict(nl=1, nr=2, rounds=2, max_len=[1, 0], cached='left')]
     if tier != 'quick':
         cfgs += [dict(nl=2, nr=1, rounds=2, max_len=[1, 1], cached='right'),
-                 dict(nl=1, nr=2, rounds=2, max_len=[1, 1], cached='left'),
+                 dict(nl=1, nr=2, rounds=3, max_len=[1, 1, 0], cached='left'),
                  dict(nl=1, nr=1, rounds=3, max_len=[2, 2, 1], cached='left')]
     ts = []
     for c in cfgs:
